@@ -569,6 +569,8 @@ fn combo_choices(rng: &mut Rng, max: u32, exhaustive: bool) -> Vec<u32> {
 // ---------------------------------------------------------------------------------------------
 
 struct Lines {
+    /// `PP` lines built from real attributes (harness/src/c09pp.rs)
+    pp: crate::c09pp::PpLines,
     seen: BTreeSet<u64>,
     /// remaining budget per line kind
     budget: std::collections::BTreeMap<String, usize>,
@@ -582,7 +584,7 @@ impl Lines {
         for (kind, n) in [("ACCO", 20_000), ("EMC", 15_000), ("ACCT", 6000), ("ACCC", 6000), ("ACCM", 8000), ("TKG", 4000), ("ZPP", 400)] {
             budget.insert(kind.to_owned(), n * k);
         }
-        Lines { seen: BTreeSet::new(), budget, default_budget: 5000 * k }
+        Lines { pp: crate::c09pp::PpLines::new(thorough, true, 1), seen: BTreeSet::new(), budget, default_budget: 5000 * k }
     }
 
     fn push(&mut self, run: &mut Run, id: &str, req: String, obs: String) {
@@ -636,6 +638,10 @@ fn in_unit(run: &mut Run, id: &str, what: &str, v: f64, repro: &dyn Fn() -> Stri
 struct Ctx<'a> {
     id: &'a str,
     d: &'a Difficulty,
+    /// verif::mods_snapshot(..).flags of the settings' mods
+    flags: [bool; 14],
+    /// `mods.no_slider_head_acc(lazer)` as answered by the real `GameMods`
+    classic: bool,
     lazer: bool,
     exhaustive: bool,
     n_samples: usize,
@@ -743,6 +749,14 @@ fn sweep_osu(run: &mut Run, lines: &mut Lines, rng: &mut Rng, cx: &Ctx, attrs: &
                     run.fail("oracle:effective-miss-count-bounds", "", cx.id, format!("misses {} <= emc {:?} <= total {} violated", state.misses, pa.effective_miss_count, total), format!("{} {what}", (cx.repro)()));
                 }
                 lines.push(run, cx.id, format!("ZPP osu {total}"), format!("zero={}", if total == 0 { u8::from(pa.pp == 0.0).to_string() } else { "?".into() }));
+                lines.pp.push(run, cx.id, "real-map", crate::c09pp::osu_req(attrs, &cx.flags, cx.lazer, cx.classic, &state), crate::c09pp::osu_obs(&pa));
+                // the miss penalty takes ln(strain count)^0.94: which side of 1 the real counts fall on
+                for (nm, v) in [("aim", attrs.aim_difficult_strain_count), ("speed", attrs.speed_difficult_strain_count)] {
+                    run.count(&format!(
+                        "real-map osu {nm}_difficult_strain_count {}",
+                        if v == 0.0 { "= 0" } else if v == 1.0 { "= 1" } else if v > 1.0 { "> 1" } else if v > 0.0 { "in (0,1)  <-- NaN territory" } else { "other" }
+                    ));
+                }
             }
         }
     }
@@ -820,6 +834,13 @@ fn sweep_taiko(run: &mut Run, lines: &mut Lines, rng: &mut Rng, cx: &Ctx, attrs:
             let a = state.accuracy();
             in_unit(run, cx.id, &format!("TaikoScoreState::accuracy of {state:?}"), a, cx.repro);
             lines.push(run, cx.id, format!("ACCT {},{},{}", state.n300, state.n100, state.misses), format!("acc={}", fnum(a)));
+            lines.pp.push(run, cx.id, "real-map", crate::c09pp::taiko_req(attrs, &cx.flags, &state), crate::c09pp::taiko_obs(&pa));
+            // hypothesis of the taiko theorems: 0 <= mono_stamina_factor < 5/3 (acc_scaling_shift > 0)
+            let msf = attrs.mono_stamina_factor;
+            run.count(&format!(
+                "real-map taiko mono_stamina_factor {}",
+                if msf == 0.0 { "= 0" } else if msf > 0.0 && msf <= 1.0 { "in (0,1]" } else if msf > 1.0 && msf < 5.0 / 3.0 { "in (1,5/3)" } else if msf >= 5.0 / 3.0 { ">= 5/3  <-- NaN territory" } else { "negative/NaN" }
+            ));
             // guard logic of compute_deviation_upper_bound / calculate
             let ghw_pos = attrs.great_hit_window > 0.0;
             lines.push(
@@ -906,6 +927,7 @@ fn sweep_catch(run: &mut Run, lines: &mut Lines, rng: &mut Rng, cx: &Ctx, attrs:
         in_unit(run, cx.id, &format!("CatchScoreState::accuracy of {state:?}"), a, cx.repro);
         lines.push(run, cx.id, format!("ACCC {},{},{},{},{}", state.fruits, state.droplets, state.tiny_droplets, state.tiny_droplet_misses, state.misses), format!("acc={}", fnum(a)));
         lines.push(run, cx.id, format!("ZPP catch {total}"), format!("zero={}", if total == 0 { u8::from(pa.pp == 0.0).to_string() } else { "?".into() }));
+        lines.pp.push(run, cx.id, "real-map", crate::c09pp::catch_req(attrs, &cx.flags, &state), crate::c09pp::catch_obs(&pa));
     }
     for acc in [0.0, 50.0, 93.7, 100.0] {
         let mut perf = CatchPerformance::new(attrs.clone()).difficulty(cx.d.clone()).accuracy(acc);
@@ -967,6 +989,7 @@ fn sweep_mania(run: &mut Run, lines: &mut Lines, rng: &mut Rng, cx: &Ctx, attrs:
             lines.push(run, cx.id, format!("ACCM {} {},{},{},{},{},{}", u8::from(cl), state.n320, state.n300, state.n200, state.n100, state.n50, state.misses), format!("acc={}", fnum(a)));
         }
         lines.push(run, cx.id, format!("ZPP mania {total}"), format!("zero={}", if total == 0 { u8::from(pa.pp == 0.0 && pa.pp_difficulty == 0.0).to_string() } else { "?".into() }));
+        lines.pp.push(run, cx.id, "real-map", crate::c09pp::mania_req(attrs, &cx.flags, &state), crate::c09pp::mania_obs(&pa));
     }
     for acc in [0.0, 50.0, 93.7, 100.0] {
         let mut perf = ManiaPerformance::new(attrs.clone()).difficulty(cx.d.clone()).accuracy(acc);
@@ -1004,6 +1027,10 @@ fn check_case(run: &mut Run, lines: &mut Lines, rng: &mut Rng, id: &str, map: &B
     run.eval(Some(&format!("{id}|{passed:?}")));
     run.count(&format!("cases:{}{}", mode_name(mode), if map.mode != mode_of(mode) { "(convert)" } else { "" }));
     let flags = mods_snapshot_flags(&settings.mods.build(mode));
+    let classic = {
+        let snap = rosu_pp::verif::mods_snapshot(&settings.mods.build(mode));
+        if lazer { snap.no_slider_head_acc_lazer } else { snap.no_slider_head_acc_stable }
+    };
     let dbg = format!("{attrs:?}");
     let nf = check_debug(run, id, "DifficultyAttributes", &dbg, true, &repro_s);
     run.dist.insert(format!("fields-per-struct:{}DifficultyAttributes", mode_name(mode)), nf as u64);
@@ -1024,7 +1051,7 @@ fn check_case(run: &mut Run, lines: &mut Lines, rng: &mut Rng, id: &str, map: &B
             Err(_) => run.count("strains:panic(C05)"),
         }
     }
-    let cx = Ctx { id, d: &d, lazer, exhaustive, n_samples, repro: &repro_s };
+    let cx = Ctx { id, d: &d, flags, classic, lazer, exhaustive, n_samples, repro: &repro_s };
     match &attrs {
         DifficultyAttributes::Osu(a) => sweep_osu(run, lines, rng, &cx, a, &flags),
         DifficultyAttributes::Taiko(a) => sweep_taiko(run, lines, rng, &cx, a),
@@ -1211,6 +1238,9 @@ pub fn run(tier: &str, seed: u64, only: Option<&str>) -> Run {
     if only.is_none() || only.is_some_and(|o| o.starts_with("syn-")) {
         synthetic_lines(&mut run, &mut lines, &mut rng.fork(), if thorough { 6000 } else { 1200 });
     }
+    if only.is_none() || only.is_some_and(|o| o.starts_with("pp-")) {
+        crate::c09pp::synthetic(&mut run, &mut rng.fork(), thorough);
+    }
 
     // (case id, map text, native mode)
     let mut maps: Vec<(String, String, u8)> = Vec::new();
@@ -1263,6 +1293,7 @@ pub fn run(tier: &str, seed: u64, only: Option<&str>) -> Run {
                 sc.spawn(move || {
                     let mut run = Run::default();
                     let mut lines = Lines::new(thorough);
+                    lines.pp = crate::c09pp::PpLines::new(thorough, true, n_threads);
                     for v in lines.budget.values_mut() {
                         *v /= n_threads;
                     }
